@@ -18,8 +18,8 @@ fn spec(t: Tier) -> Spec {
     Spec {
         id: "C13",
         level: "exploration",
-        rule: format!("(1) a sandbox holding every creatable entry kind (regular empty/non-empty/setuid, hard-link pair, empty and non-empty directory, fifo, socket, symbolic links to each of them, to a link, to a file outside, dangling; link owners differ from target owners; ids 0, 1, 54321, 2^31) is walked under -P, -H, -L from the directory (entries at depth >= 1) and with every entry as its own starting point (depth 0); on every visited entry every test of the vocabulary (-type/-xtype x 7 letters, -links/-inum/-uid/-gid N,+N,-N around the real values, -user/-group by name and number, -empty, -samefile against every entry, -lname '*', 8 -perm operands) is evaluated in comma-list runs of the real find and compared with the oracle computed from lstat()/stat() of the materialised entry (stat-else-lstat where the mode follows at that depth; -xtype the opposite choice; -lname only where the selected record is still a link). (2) {pm} files (and directories in thorough) carrying every permission value x octal operands ({ops}) x forms MODE, -MODE, /MODE against the bit formula. (3) symbolic operands: every sequence of <= {sq} clauses over who x op x perms (chmod semantics applied to 0, umask 0; includes copies like g=u and clauses that remove bits) — the mask the code derives is read off the selection on 25 probe files for -SYM and /SYM and on all 4096 files for SYM, and must equal the reference value. evaluation = (entry, test); non-trivial = test on a symbolic link or with a symbolic operand or a permission test", pm = 4096, ops = t.pick("0, 07777, all 1- and 2-bit masks, class masks: 92", "all 4096"), sq = t.pick("1 (all 432) and 2 over a 54-clause subset", "2 (all 432^2)")),
-        bound: json!({"follow": ["-P","-H","-L"], "perm_values": 4096, "octal_operands": t.pick(92, 4096), "symbolic_clauses": 432, "symbolic_sequences": t.pick("432 + 54^2", "432 + 432^2")}),
+        rule: format!("(1) a sandbox holding every creatable entry kind (regular empty/non-empty/setuid, hard-link pair, empty and non-empty directory, fifo, socket, symbolic links to each of them, to a link, to a file outside, dangling; link owners differ from target owners; ids 0, 1, 54321, 2^31) is walked under -P, -H, -L from the directory (entries at depth >= 1) and with every entry as its own starting point (depth 0); on every visited entry every test of the vocabulary (-type/-xtype x 7 letters, -links/-inum/-uid/-gid N,+N,-N around the real values, -user/-group by name and number, -empty, -samefile against every entry, -lname '*', 8 -perm operands) is evaluated in comma-list runs of the real find and compared with the oracle computed from lstat()/stat() of the materialised entry (stat-else-lstat where the mode follows at that depth; -xtype the opposite choice; -lname only where the selected record is still a link). (2) {pm} files (and directories in thorough) carrying every permission value x octal operands ({ops}) x forms MODE, -MODE, /MODE against the bit formula. (3) symbolic operands: every sequence of <= {sq} clauses over who x op x perms (chmod semantics applied to 0, umask 0; includes copies like g=u and clauses that remove bits) — the mask the code derives is read off the selection on 25 probe files for -SYM and /SYM and on all 4096 files for SYM, and must equal the reference value. evaluation = (entry, test); non-trivial = test on a symbolic link or with a symbolic operand or a permission test", pm = 4096, ops = t.pick("every mask with <= 3 or >= 10 bits set, class masks: 386", "all 4096"), sq = t.pick("1 (all 432) and 2 over a 54-clause subset", "2 (all 432^2)")),
+        bound: json!({"follow": ["-P","-H","-L"], "perm_values": 4096, "octal_operands": t.pick(386, 4096), "symbolic_clauses": 432, "symbolic_sequences": t.pick("432 + 54^2", "432 + 432^2")}),
         assumptions: vec![
             "a -samefile reference that is itself a symbolic link is judged under -P (lstat) and -L (stat) only; under -H it is run for determinism".into(),
             "symbolic 'X' and links whose resolution fails with ELOOP are outside the check".into(),
@@ -368,10 +368,9 @@ fn octal_operands(t: Tier) -> Vec<u32> {
         return (0..4096).collect();
     }
     let mut v: BTreeSet<u32> = [0u32, 0o7777, 0o700, 0o070, 0o007, 0o7000, 0o777, 0o4700, 0o2070, 0o1007, 0o644, 0o755].into_iter().collect();
-    for a in 0..12 {
-        v.insert(1 << a);
-        for b in 0..a {
-            v.insert((1 << a) | (1 << b));
+    for m in 0..4096u32 {
+        if m.count_ones() <= 3 || m.count_ones() >= 10 {
+            v.insert(m);
         }
     }
     v.into_iter().collect()
